@@ -78,54 +78,59 @@ def forced(e):
 
 
 def check_limits(op, prev, nxt, side):
-    """limits on one transition of one half (prev/nxt parsed halves)."""
+    """limits on one transition of one half (prev/nxt parsed halves).
+    Slots forced by per-torrent min_slots (uploads_min / downloads_min) are carved out explicitly:
+    a configuration whose min slots exceed a maximum is contradictory, the code honours the minimum.
+    forced(e) = min(min_slots, max_slots, connections of the entry)."""
     bad = []
     k = op[0]
     mine = len(op) > 1 and op[1] == side[0]
-    # no op raises a count above its maximum (group moves excepted for the per-group count: the code
-    # defers to the next balancing)
+    # (1) no op raises a per-torrent count above max_slots
     for t, (a, b) in enumerate(zip(prev["T"], nxt["T"])):
         if len(b["u"]) > len(a["u"]) and len(b["u"]) > b["max"] and len(b["u"]) > forced(b):
             bad.append(("limit-torrent", "%s torrent %d: op %s raised unchoked to %d above max_slots %d" % (side, t, k, len(b["u"]), b["max"])))
+    # (2) no op raises a per-group count above max(max_unchoked, forced in that group); a group move
+    #     carries the moved entry's connections with it (the code defers to the next balancing)
     if k != "SG":
         for g, (a, b) in enumerate(zip(prev["Q"], nxt["Q"])):
             f = sum(forced(nxt["T"][t]) for t in b["ents"])
             if b["cu"] > a["cu"] and b["max"] != UNL and b["cu"] > max(b["max"], f):
                 bad.append(("limit-queue", "%s queue %d: op %s raised unchoked to %d above max_unchoked %d" % (side, g, k, b["cu"], b["max"])))
-    # (the direct CY op takes its quota as an argument; the global maximum enters through the quota
-    # ResourceManager::balance_unchoked computes, i.e. through TK)
-    if k != "CY" and nxt["max"] != 0 and nxt["cur"] > prev["cur"] and nxt["cur"] > nxt["max"]:
-        f = sum(forced(e) for e in nxt["T"])
+    # (3) global maximum. The connections beyond those forced by min_slots, summed per group,
+    #     number at most the maximum:  sum_g max(0, unchoked_g - forced_g) <= max.
+    #     (The direct CY op takes its quota as an argument; the global maximum enters through the
+    #     quota ResourceManager::balance_unchoked computes, i.e. through TK.)
+    fq = [sum(forced(nxt["T"][t]) for t in q["ents"]) for q in nxt["Q"]]
+    excess = sum(max(0, q["cu"] - f) for q, f in zip(nxt["Q"], fq))
+    any_forced = any(f > 0 for f in fq)
+    if nxt["max"] != 0 and k != "CY" and k != "TK" and nxt["cur"] > prev["cur"] and excess > nxt["max"]:
         if side == "download" and k in ("Q", "R"):
-            # choke_group::m_down_queue is built with flag_unchoke_all_new: set_queued/set_not_snubbed do not
-            # consult retrieve_download_can_unchoke
+            # exactly the known finding: choke_group::m_down_queue is built with flag_unchoke_all_new, so
+            # set_queued / set_not_snubbed do not consult retrieve_download_can_unchoke before the next tick
             bad.append(("download-unchoke-all-new", "download: op %s raised the global unchoked count to %d above max_download_unchoked %d "
                         "(flag_unchoke_all_new bypasses the global maximum until the next tick)" % (k, nxt["cur"], nxt["max"])))
-        elif f == 0:
-            bad.append(("limit-global", "%s: op %s raised the global unchoked count to %d above the maximum %d" % (side, k, nxt["cur"], nxt["max"])))
-        elif nxt["cur"] > nxt["max"] + f:
-            bad.append(("tick-quota-underflow", "%s: op %s left %d unchoked with global maximum %d and only %d forced by min_slots"
-                        % (side, k, nxt["cur"], nxt["max"], f)))
-    # cycle / tick end within quota
+        else:
+            bad.append(("limit-global", "%s: op %s raised the global unchoked count to %d above the maximum %d (forced by min_slots: %d)"
+                        % (side, k, nxt["cur"], nxt["max"], sum(fq))))
+    # (4) cycle / tick end within quota
     if k == "CY" and mine:
         g = int(op[2])
         if g < len(nxt["Q"]):
             q = nxt["Q"][g]
             quota = min(int(op[3]), q["max"])
-            f = sum(forced(nxt["T"][t]) for t in q["ents"])
-            if q["cu"] > max(quota, f):
-                bad.append(("cycle-quota", "%s queue %d: cycle(%s) ended with %d unchoked" % (side, g, op[3], q["cu"])))
+            if q["cu"] > max(quota, fq[g]):
+                bad.append(("cycle-quota", "%s queue %d: cycle(%s) ended with %d unchoked (forced %d)" % (side, g, op[3], q["cu"], fq[g])))
     if k == "TK":
-        f = sum(forced(e) for e in nxt["T"])
-        if nxt["max"] != 0 and nxt["cur"] > nxt["max"] + f:
-            bad.append(("tick-quota-underflow", "%s: receive_tick left %d unchoked with global maximum %d (min_slots force %d)"
-                        % (side, nxt["cur"], nxt["max"], f)))
-        elif nxt["max"] != 0 and f == 0 and nxt["cur"] > nxt["max"]:
-            bad.append(("limit-global", "%s: receive_tick left %d unchoked above the global maximum %d" % (side, nxt["cur"], nxt["max"])))
+        if nxt["max"] != 0 and excess > nxt["max"]:
+            if any_forced:
+                # regression class of the defect repaired in 8c9c20f (quota wrapped in balance_unchoked)
+                bad.append(("tick-quota-underflow", "%s: receive_tick left %d unchoked, %d beyond those forced by min_slots, with global maximum %d"
+                            % (side, nxt["cur"], excess, nxt["max"])))
+            else:
+                bad.append(("limit-global-tick", "%s: receive_tick left %d unchoked above the global maximum %d" % (side, nxt["cur"], nxt["max"])))
         for g, q in enumerate(nxt["Q"]):
-            fq = sum(forced(nxt["T"][t]) for t in q["ents"])
-            if q["max"] != UNL and q["cu"] > max(q["max"], fq):
-                bad.append(("limit-queue", "%s queue %d: receive_tick left %d unchoked above max_unchoked %d" % (side, g, q["cu"], q["max"])))
+            if q["max"] != UNL and q["cu"] > max(q["max"], fq[g]):
+                bad.append(("limit-queue-tick", "%s queue %d: receive_tick left %d unchoked above max_unchoked %d" % (side, g, q["cu"], q["max"])))
     return bad
 
 
@@ -234,4 +239,6 @@ def run(rep, tier, seed, replay):
                    exhaustive=(tier == "thorough"))
     rep.assumptions += ["at most 16 connections per entry list and at most 16 choke groups (std::sort is a stable insertion sort there)",
                         "connections are only queued on the download side while the remote has unchoked us (as PeerConnection::read_message does)",
-                        "limit changes and group moves take effect at the next balance/tick (as the code documents)"]
+                        "limit changes and group moves take effect at the next balance/tick (as the code documents)",
+                        "slots forced by per-torrent min_slots are carved out of every maximum: per group unchoked <= max(max_unchoked, forced), "
+                        "globally sum_g max(0, unchoked_g - forced_g) <= max (the max() form over the global sum is false: tick_max_form_refuted)"]
